@@ -708,6 +708,8 @@ theorem dialSend_spec (cfg : Cfg) (hcfg : cfg.checkQuestion = true) (c : Client)
     · simp only [Bool.not_false, if_true]
       exact ⟨(by intro m h; cases h), fun p hp => .inl hp⟩
     · simp only [Bool.not_true, Bool.false_eq_true, if_false]
+      split
+      · exact ⟨(by intro m h; cases h), fun p hp => .inl hp⟩
       unfold answersRequest at hq
       cases hmq : m.q with
       | none => rw [hmq] at hq; cases hq
